@@ -164,6 +164,7 @@ Section Proofs.
   Notation exec_raw := (exec_raw dec_def dec_pay).
   Notation exec := (exec dec_def dec_pay).
   Notation wasm_exec := (wasm_exec dec_def dec_pay).
+  Notation legacy_exec := (legacy_exec dec_def dec_pay).
   Notation step_res := (step_res dec_def dec_pay).
   Notation step := (step dec_def dec_pay).
   Notation run_from := (run_from dec_def dec_pay).
@@ -301,6 +302,14 @@ Section Proofs.
     right. repeat split; discriminate.
   Qed.
 
+  Lemma legacy_exec_cases s id raw caddr pre pick atm :
+    (legacy_exec s id raw caddr pre pick atm = (s, Err EWasmInvalid) /\ id = []) \/
+    (legacy_exec s id raw caddr pre pick atm = exec s (wasm_req id raw caddr pre pick atm) /\ id <> []).
+  Proof.
+    unfold legacy_exec, wasm_req. destruct id as [|i id]; [left; now split|].
+    right. split; [reflexivity | discriminate].
+  Qed.
+
   (** ** one step: what can happen to the three components *)
 
   (** the request as seen by the keeper, for execute operations *)
@@ -309,6 +318,7 @@ Section Proofs.
     | OCreate _ _ => None
     | OExec x => Some x
     | OWasmExec id raw caddr pre pick atm => Some (wasm_req id raw caddr pre pick atm)
+    | OLegacyExec id raw caddr pre pick atm => Some (wasm_req id raw caddr pre pick atm)
     end.
 
   Inductive step_shape (s : state) (o : op) : state * result -> Prop :=
@@ -326,7 +336,7 @@ Section Proofs.
 
   Lemma step_res_shape s o : step_shape s o (step_res s o).
   Proof.
-    destruct o as [j vb | x | id raw caddr pre pick atm]; cbn [Jobs.step_res].
+    destruct o as [j vb | x | id raw caddr pre pick atm | id raw caddr pre pick atm]; cbn [Jobs.step_res].
     - destruct (create_spec s j vb) as [E | (E & F & O & V & C & VJ)]; rewrite E.
       + constructor.
       + now apply (SCreated s _ j vb).
@@ -335,6 +345,12 @@ Section Proofs.
       + apply exec_err in E as [-> | (A & j & J & ->)]; [constructor|].
         now apply (SFailedAfterHook s _ x j e).
     - destruct (wasm_exec_cases s id raw caddr pre pick atm) as [[E _] | (E & _ & _)]; rewrite E.
+      + constructor.
+      + destruct (exec s _) as [s' [|e]] eqn:E2.
+        * apply exec_ok in E2 as (j & c & RF & ->). now apply (SRan s _ _ j c).
+        * apply exec_err in E2 as [-> | (A & j & J & ->)]; [constructor|].
+          now apply (SFailedAfterHook s _ _ j e).
+    - destruct (legacy_exec_cases s id raw caddr pre pick atm) as [[E _] | (E & _)]; rewrite E.
       + constructor.
       + destruct (exec s _) as [s' [|e]] eqn:E2.
         * apply exec_ok in E2 as (j & c & RF & ->). now apply (SRan s _ _ j c).
@@ -523,6 +539,7 @@ Section Proofs.
     | OCreate _ _ => true
     | OExec x => x_atomic x
     | OWasmExec _ _ _ _ _ atm => atm
+    | OLegacyExec _ _ _ _ _ atm => atm
     end.
 
   Theorem failed_execute_enqueues_none chs ops o e :
@@ -540,7 +557,7 @@ Section Proofs.
       try discriminate; cbn.
     - repeat split; auto.
     - rewrite pre_state_jobs, pre_state_calls. repeat split; auto.
-      + intros A. destruct o as [? ? | x' | ? ? ? ? ? atm]; cbn in *; try discriminate;
+      + intros A. destruct o as [? ? | x' | ? ? ? ? ? atm | ? ? ? ? ? atm]; cbn in *; try discriminate;
           inversion Hx; subst; cbn in *; congruence.
       + unfold pre_state. destruct (x_pre x) eqn:P; [right | now left].
         exists x, j. repeat split; auto.
